@@ -210,13 +210,20 @@ theorem loss_cancels_waiters (s : S) (e : Event)
       | slow => left; exact ⟨rfl, rfl⟩
       | stubborn r => left; exact ⟨rfl, rfl⟩
       | aborter => exact (doAbort_tkc _).of_eq rfl rfl
+      | thenClose fa => left; exact ⟨rfl, rfl⟩
       | closer fa => exact startCloser_tkc _ _ _ _ _
   | replyClose i fa =>
     unfold step; simp only []
     split
     · exact .refl s
     · exact startCloser_tkc _ _ _ _ _
-  | handlerFinish i => left; exact ⟨rfl, rfl⟩
+  | handlerFinish i =>
+    unfold step; simp only []
+    split
+    · left; exact ⟨rfl, rfl⟩
+    · split
+      · exact closeAbort_tkc s _ rfl rfl
+      · exact (transportClose_tkc _).of_eq rfl rfl
   | handlerCancel i =>
     show TicketsKeptOrCancelled s (s.crash i)
     unfold S.crash
@@ -589,12 +596,13 @@ theorem never_half_closed {s : S} (h : Reachable s) (hc : s.closing = true) (hl 
     | slow => simp [hkk] at hkd
     | stubborn r => simp [hkk] at hkd
     | aborter => simp [hkk] at hkd
+    | thenClose fa => simp [hkk] at hkd
 
 theorem never_half_closed_all (rt pt ol : Nat) (st : Bool) (hrt : 0 < rt) (hpt : 0 < pt) :
     NeverHalfClosed (init rt pt ol st) :=
   fun es => never_half_closed ⟨rt, pt, ol, st, es, hrt, hpt, rfl⟩
 
-/-- the pinned code leaves a connection half closed for ever in three ways: (1) a handler
+/-- the pinned code leaves a connection half closed for ever in three ways (four histories): (1) a handler
 calls `close(force_after)` and its processing timeout fires while `close()` waits (the
 TimeoutCancellationError passes `except TaskTimeout`, `abort()` never runs); (2) the application
 cancels a task inside `close()`; (3) a handler task ends with a cancellation (message processing
@@ -610,7 +618,13 @@ theorem never_half_closed_pinned_witness :
     (let s := run (initPinned 30 30 50 true)
        [.request 1 .slow, .handlerCancel 1, .appClose 1 7, .advance 300]
      s.closing = true ∧ s.lost = false ∧ s.closedEvent = true ∧
-       s.closers.map (·.st) = [.returned 0]) := by decide +kernel
+       s.closers.map (·.st) = [.returned 0]) ∧
+    -- (1) as the audit reproduced it: the handler works for a second, then `await self.close()`
+    -- with the default force_after 30 = processing_timeout
+    (let s := run (initPinned 30 30 50 true)
+       [.request 1 (.thenClose 30), .advance 1, .handlerFinish 1, .advance 300]
+     s.closing = true ∧ s.lost = false ∧ s.hookRuns = 0 ∧ s.handlers.all Handler.isDone = true) := by
+  decide +kernel
 
 theorem never_half_closed_pinned_fails : ¬ NeverHalfClosed (initPinned 30 30 50 true) := by
   intro h
@@ -628,7 +642,10 @@ example :
     (run (init 30 30 50 true) [.request 1 (.closer 40), .advance 300]).abortedAt = some 30 ∧
     (run (init 30 30 50 true) [.appClose 1 30, .advance 3, .cancelClose 1, .advance 300]).abortedAt = some 3 ∧
     (run (init 30 30 50 true) [.request 1 .slow, .handlerCancel 1, .appClose 1 7, .advance 300]).abortedAt
-      = some 0 := by decide +kernel
+      = some 0 ∧
+    (run (init 30 30 50 true)
+      [.request 1 (.thenClose 30), .advance 1, .handlerFinish 1, .advance 300]).abortedAt = some 30 := by
+  decide +kernel
 
 /-- **Closing always ends closed**: from every reachable state in which the transport is
 closing - after a drop, an abort, a completed or a stalled graceful close, from an application
